@@ -175,14 +175,16 @@ def run(tier, seed, opens):
                         cases += 1
                         # the creator's lock time (0 = the library's default; a block height; a time stamp) is part of what every cosigner signs
                         lt = (0, 650000, 1700000000)[cases % 3]
-                        scen = {'m': m, 'n': n, 'witness_type': wt, 'signing_order': list(order), 'handoff': rep, 'locktime': lt}
+                        rbf = (cases // 3) % 2 == 1          # the creator's sequence numbers (opt-in replace-by-fee: fffffffd) are signed as well
+                        scen = {'m': m, 'n': n, 'witness_type': wt, 'signing_order': list(order), 'handoff': rep, 'locktime': lt, 'replace_by_fee': rbf}
                         try:
                             w0 = wallets[order[0]]
                             u = w0.utxos()[0]
                             t = w0.transaction_create([(dest, u['value'] - 50000)], [(u['txid'], u['output_n'], u['key_id'], u['value'])], fee=50000,
-                                                      **({'locktime': lt} if lt else {}))
+                                                      **dict({'locktime': lt} if lt else {}, **({'replace_by_fee': True} if rbf else {})))
                             t.sign()
                             lt_created = t.locktime
+                            seq_created = [i.sequence for i in t.inputs]
                             problems = []
                             too_early = False
                             carried = True
@@ -194,6 +196,8 @@ def run(tier, seed, opens):
                                 t = handoff(t, wallets[wi], rep)
                                 if t.locktime != lt_created:
                                     problems.append('lock time %d became %d on import' % (lt_created, t.locktime))
+                                if [i.sequence for i in t.inputs] != seq_created:
+                                    problems.append('sequence numbers %s became %s on import' % (['%x' % q for q in seq_created], ['%x' % i.sequence for i in t.inputs]))
                                 if [len(i.signatures) for i in t.inputs] != before:
                                     carried = False
                                 if t.verify():
